@@ -96,6 +96,9 @@ def add_with_id(ctx, rule):
     troles = {nm[0]: "NAME"} if nm else {}
     calls = [q.shape(tb.expr_of_call(t), troles) for bi, t in q.calls_to(tb, B + "add_with_id")]
     want = "SourceMapBuilder::add_with_id(arg1,Token::get_dst_line(arg2),Token::get_dst_col(arg2),Token::get_src_line(arg2),Token::get_src_col(arg2),Token::get_source(arg2),Token::get_src_id(arg2),NAME,Token::is_range(arg2))"
+    alt = want.replace("NAME", "Option::flatten(bool::then(arg3,%s(Token::get_name(arg2))))" % LAM)  # with_name.then(|| token.get_name()).flatten()
+    if [c.replace("^", "") for c in calls] == [alt]:
+        calls = [want]
     ctx.check(calls == [want], rule, tb.path, "add_token:forward", "add_token re-inserts the token's own positions, source, old source id and range flag, in order", detail=str(calls))
     if nm:
         found = expect_defs(ctx, rule, tb, nm[0], troles, {"Token::get_name(arg2)": "name", "Option::None{}": "dropped"}, ["name", "dropped"], "name argument")
@@ -262,6 +265,9 @@ def cache_coherence(ctx, rule):
     shapes = sorted(s for _, _, s in cache_w)
     ROOT = "Option::filter(Option::as_ref(arg1.source_root),%s(Not(str::is_empty(p1))))" % LAM
     ok = len(shapes) == 2 and shapes[0] == "Option::None{}" and shapes[1] == "Option::Some{0:Iterator::collect(Iterator::map(slice::iter(arg1.sources),%s(SourceMap::prefix_source(^try(%s),p1))))}" % (LAM, ROOT)
+    comb = "Option::map(%s,%s(Iterator::collect(Iterator::map(slice::iter(arg1.sources),%s(SourceMap::prefix_source(arg2,p1))))))" % (ROOT, LAM, LAM)
+    single = [x.replace("^", "") for x in shapes] == [comb]  # self.sources_prefixed = root.filter(..).map(|root| sources.iter().map(|s| prefix_source(root, s)).collect())
+    ok = ok or single
     ctx.check(ok, rule, b.path, "cache:rebuilt-from-all-sources", "the cache is rebuilt from *all* sources when the root is non-empty and cleared otherwise", detail=str(shapes))
     if root_w:
         ctx.check(must_pass(b, root_w[0][0], [bi for bi, _, _ in cache_w]) , rule, b.path, "cache:every-path", "after the root changes every path updates the cache")
